@@ -35,9 +35,9 @@ import (
 	"github.com/dolthub/dolt/go/zzverif/vsql"
 )
 
-const c45PushRule = "part (a): one server; per case @@GLOBAL.dolt_replicate_to_remote='origin', dolt_replication_remote_url_template=file://<scratch>/<case>/{database} and dolt_async_replication (25 synchronous cases run first as their own sub-check; 5 asynchronous cases with at most 8 groups run only if those held) are set, then CREATE DATABASE (which creates the remote and installs the push hook); 10-16 drawn statement groups (the first two create a second branch and commit on it) on up to 3 branches: insert + dolt_commit, working-set-only insert, dolt_branch create / -D, dolt_merge of a side branch into main (fast-forward or merge commit), dolt_reset --hard HEAD~1, dolt_commit --amend, dolt_branch -f of a side branch to main / main~1 / a sibling branch (non-fast-forward moves and rewrites whose new head is not taller than the old one), dolt_tag, and `away` / `back` (the remote directory is renamed away / back, so pushes fail in between; every case has such a stretch starting at its middle step at the latest, and the step after `away` moves a ref). After every statement the harness collects what was reported: SQL error, SHOW WARNINGS, bytes written to the server's error output (cli.CliErr, where the hook writes 'error pushing: ...'), warning/error-level log entries. Oracle: if nothing was reported then for every ref the statement moved the remote directory (opened in process, no cache) has the same commit as the local database (absent when deleted) — with the remote away and nothing reported the case fails as silent divergence; a working-set-only statement never moves a remote ref, and any other statement changes a remote ref only to the commit the local database has for it (a statement that moves nothing locally may make the remote catch up on a ref whose earlier push failed); closure walk over the remote finds every address. Async mode: the same condition is awaited for at most 8 s per statement (expired wait = inconclusive, not a violation). Non-trivial: at least 2 branches moved, a non-fast-forward move or a deletion, and at least one statement that ran while the remote was away."
+const c45PushRule = "part (a): one server; database names are created in a drawn case (lower / Mixed / UPPER) and spelled by the sessions in a drawn case; per case @@GLOBAL.dolt_replicate_to_remote='origin', dolt_replication_remote_url_template=file://<scratch>/<case>/{database} and dolt_async_replication (25 synchronous cases run first as their own sub-check; 5 asynchronous cases with at most 8 groups run only if those held) are set, then CREATE DATABASE (which creates the remote and installs the push hook); 10-16 drawn statement groups (the first two create a second branch and commit on it) on up to 3 branches: insert + dolt_commit, working-set-only insert, dolt_branch create / -D, dolt_merge of a side branch into main (fast-forward or merge commit), dolt_reset --hard HEAD~1, dolt_commit --amend, dolt_branch -f of a side branch to main / main~1 / a sibling branch (non-fast-forward moves and rewrites whose new head is not taller than the old one), dolt_tag, and `away` / `back` (the remote directory is renamed away / back, so pushes fail in between; every case has such a stretch starting at its middle step at the latest, and the step after `away` moves a ref). After every statement the harness collects what was reported: SQL error, SHOW WARNINGS, bytes written to the server's error output (cli.CliErr, where the hook writes 'error pushing: ...'), warning/error-level log entries. Oracle: if nothing was reported then for every ref the statement moved the remote directory (opened in process, no cache) has the same commit as the local database (absent when deleted) — with the remote away and nothing reported the case fails as silent divergence; a working-set-only statement never moves a remote ref, and any other statement changes a remote ref only to the commit the local database has for it (a statement that moves nothing locally may make the remote catch up on a ref whose earlier push failed); closure walk over the remote finds every address. Async mode: the same condition is awaited for at most 8 s per statement (expired wait = inconclusive, not a violation). Non-trivial: at least 2 branches moved, a non-fast-forward move or a deletion, and at least one statement that ran while the remote was away."
 
-const c45ReplicaRule = "part (b): one server; per case a primary database (table with TEXT and JSON columns; 2 of 3 inserted rows carry cells from the size classes inline / around the 2048-byte inline threshold / out of line / multi-chunk) with branches main and b1 pushed to its file remote `origin` (explicit dolt_push), then @@GLOBAL.dolt_read_replica_remote='origin' with dolt_replicate_all_heads=1 or dolt_replicate_heads='main' / 'main,b1', then CALL dolt_clone(remote, replica). 10-16 drawn steps: primary commit+push (fast-forward), commit without push, reset --hard HEAD~1 + push --force, new branch + push, deletion of a remote branch that is not in the replicated list; replica reads (SELECT name, hash FROM dolt_branches) by an autocommit session and by a session inside an explicit transaction (begin / read / commit drawn as separate steps), and `settle` (two consecutive reads with no remote change in between; the second is checked). The harness records every head the remote has had per branch (read from the remote directory after every push). Oracle: every (branch, head) any replica read shows is a head the remote has had for that branch; at a settle point the replicated branches have exactly the remote's current heads, in all-heads mode the branch set equals the remote's (deleted branches are gone); for every head shown at a settle point the rows / schemas / log AS OF that head on the replica equal the record taken on the primary when the commit was made, the replica's working set of that branch has the head's rows; closure walk over the replica finds every address. Non-trivial: at least 2 branches replicated and a force-push or deletion happened before a checked settle point."
+const c45ReplicaRule = "part (b): one server per case; database names (primary, replica) are created in a drawn case (lower / Mixed / UPPER) and spelled by the sessions in a drawn case; per case a primary database (table with TEXT and JSON columns; 2 of 3 inserted rows carry cells from the size classes inline / around the 2048-byte inline threshold / out of line / multi-chunk) with branches main and b1 pushed to its file remote `origin` (explicit dolt_push), then @@GLOBAL.dolt_read_replica_remote='origin' with dolt_replicate_all_heads=1 or dolt_replicate_heads='main' / 'main,b1', then CALL dolt_clone(remote, replica). 10-16 drawn steps: primary commit+push (fast-forward), commit without push, reset --hard HEAD~1 + push --force, new branch + push, deletion of a remote branch that is not in the replicated list; replica reads (SELECT name, hash FROM dolt_branches) by an autocommit session and by a session inside an explicit transaction (begin / read / commit drawn as separate steps), and `settle` (two consecutive reads with no remote change in between; the second is checked). The harness records every head the remote has had per branch (read from the remote directory after every push). Oracle: every (branch, head) any replica read shows is a head the remote has had for that branch; at a settle point the replicated branches have exactly the remote's current heads, in all-heads mode the branch set equals the remote's (deleted branches are gone); for every head shown at a settle point the rows / schemas / log AS OF that head on the replica equal the record taken on the primary when the commit was made, the replica's working set of that branch has the head's rows; closure walk over the replica finds every address. Non-trivial: at least 2 branches replicated and a force-push or deletion happened before a checked settle point."
 
 var c45Assumptions = []string{
 	"part (c) (two-server cluster, standby, role transitions) is out of scope of this check",
@@ -265,7 +265,7 @@ func TestVerif_C45(t *testing.T) {
 
 func c45PushCase(rt *rapid.T, env *c45Env, rec *vh.Recorder, async bool) {
 	srv, admin := env.srv, env.admin
-	db := srv.NewDBName()
+	db := gcDrawDBName(rt, srv, "db")
 	base := filepath.Join(env.scratch, "remotes-"+db)
 	if err := os.MkdirAll(base, 0o755); err != nil {
 		rt.Fatalf("mkdir: %v", err)
@@ -283,12 +283,12 @@ func c45PushCase(rt *rapid.T, env *c45Env, rec *vh.Recorder, async bool) {
 		admin.MustExec(rt, "SET @@GLOBAL.dolt_async_replication = 1")
 	}
 	c45Capt.take()
-	admin.MustExec(rt, "CREATE DATABASE "+db)
+	admin.MustExec(rt, "CREATE DATABASE `"+db+"`")
 	defer func() {
 		env.resetGlobals()
-		_ = admin.Exec("DROP DATABASE " + db)
+		_ = admin.Exec("DROP DATABASE `" + db + "`")
 	}()
-	se := srv.Session(rt, "p", db)
+	se := srv.Session(rt, "p", gcSpell(rt, "primary", db))
 	defer se.Close()
 	if async {
 		// the initial push of the default branch (made by CREATE DATABASE) is asynchronous too: let it land
@@ -599,6 +599,7 @@ func c45PushCase(rt *rapid.T, env *c45Env, rec *vh.Recorder, async bool) {
 	if awaySteps > 0 {
 		cl = append(cl, "moved_refs_while_away")
 	}
+	cl = append(cl, gcNameCase(db))
 	for k := range wide {
 		cl = append(cl, "wide:"+k)
 	}
@@ -611,8 +612,8 @@ func c45PushCase(rt *rapid.T, env *c45Env, rec *vh.Recorder, async bool) {
 
 func c45ReplicaCase(rt *rapid.T, env *c45Env, rec *vh.Recorder) {
 	srv, admin := env.srv, env.admin
-	pdb := srv.NewDBName()
-	rdb := srv.NewDBName()
+	pdb := gcDrawDBName(rt, srv, "primary")
+	rdb := gcDrawDBName(rt, srv, "replica")
 	remoteDir := filepath.Join(env.scratch, "remote-"+pdb)
 	url := "file://" + remoteDir
 	var log []string
@@ -620,14 +621,14 @@ func c45ReplicaCase(rt *rapid.T, env *c45Env, rec *vh.Recorder) {
 		rt.Helper()
 		rt.Fatalf("%s\nstatements:\n  %s", fmt.Sprintf(format, args...), strings.Join(log, "\n  "))
 	}
-	admin.MustExec(rt, "CREATE DATABASE "+pdb)
+	admin.MustExec(rt, "CREATE DATABASE `"+pdb+"`")
 	defer func() {
 		env.resetGlobals()
 		for _, d := range []string{rdb, pdb} {
-			_ = admin.Exec("DROP DATABASE IF EXISTS " + d) // refused for the replica ("unable to drop database")
+			_ = admin.Exec("DROP DATABASE IF EXISTS `" + d + "`") // refused for the replica ("unable to drop database")
 		}
 	}()
-	p := srv.Session(rt, "p", pdb)
+	p := srv.Session(rt, "p", gcSpell(rt, "primary", pdb))
 	defer p.Close()
 	px := func(q string) {
 		rt.Helper()
@@ -705,9 +706,9 @@ func c45ReplicaCase(rt *rapid.T, env *c45Env, rec *vh.Recorder) {
 	if err := admin.Exec(fmt.Sprintf("CALL dolt_clone('%s', '%s')", url, rdb)); err != nil {
 		fatalf("dolt_clone of the replica: %v", err)
 	}
-	r1 := srv.Session(rt, "r1", rdb)
+	r1 := srv.Session(rt, "r1", gcSpell(rt, "r1", rdb))
 	defer r1.Close()
-	r2 := srv.Session(rt, "r2", rdb)
+	r2 := srv.Session(rt, "r2", gcSpell(rt, "r2", rdb))
 	defer r2.Close()
 	inTxn := false
 
@@ -893,7 +894,7 @@ func c45ReplicaCase(rt *rapid.T, env *c45Env, rec *vh.Recorder) {
 			replicated++
 		}
 	}
-	cl := []string{"mode=" + mode, fmt.Sprintf("settles=%d", min(settles, 5))}
+	cl := []string{"mode=" + mode, fmt.Sprintf("settles=%d", min(settles, 5)), "primary_" + gcNameCase(pdb), "replica_" + gcNameCase(rdb)}
 	for k := range special {
 		cl = append(cl, k)
 	}
